@@ -324,6 +324,63 @@ type MonC04 struct{ baseMon }
 
 func NewMonC04() *MonC04 { m := &MonC04{}; m.init("C04"); return m }
 
+// OnStepEnd: "... and is left with no direct subscription to the resource".
+// Once a subscribe, get or resource request for a resource has failed on a
+// connection, the gateway's direct count for it there is at most what the
+// client has had confirmed plus what requests still in flight may hold (hook).
+func (m *MonC04) OnStepEnd(w *World, step int) {
+	if w.Race {
+		return
+	}
+	dc := directCounts(w)
+	if dc == nil {
+		return
+	}
+	for _, c := range w.Clients {
+		if !c.Dialed || c.EOF || c.Closed || c.CID == "" {
+			continue
+		}
+		failed := map[string]bool{}
+		inflight := map[string]int{}
+		any := 0
+		for _, id := range c.Ref.ReqOrder {
+			r := c.Ref.Reqs[id]
+			if r.Resp == 0 {
+				switch r.Action {
+				case "subscribe", "get":
+					inflight[strings.Replace(r.RID, "{cid}", c.CID, -1)]++
+				case "call", "auth", "new":
+					any++
+				}
+				continue
+			}
+			switch {
+			case (r.Action == "subscribe" || r.Action == "get") && r.IsError:
+				failed[strings.Replace(r.RID, "{cid}", c.CID, -1)] = true
+			case r.ResRID != "" && r.ResRootErr:
+				failed[strings.Replace(r.ResRID, "{cid}", c.CID, -1)] = true
+			}
+		}
+		confirmed := map[string]int{}
+		for rid, n := range c.Ref.Direct {
+			confirmed[strings.Replace(rid, "{cid}", c.CID, -1)] += n
+		}
+		for rid := range failed {
+			got, ok := dc[c.CID+"|"+rid]
+			if !ok {
+				m.class("no_subscription_left_after_failed_request")
+				continue
+			}
+			if max := confirmed[rid] + inflight[rid] + any; got > max {
+				m.viols = append(m.viols, Violation{Property: "C04", Class: "direct_subscription_left_after_failed_request", Step: step, Conn: c.Idx, RID: rid, T: w.now(),
+					Message: fmt.Sprintf("c%d: a request for %s failed, yet the gateway counts %d direct subscription(s) to it on this connection while the client has %d confirmed and at most %d request(s) in flight could hold one", c.Idx, rid, got, confirmed[rid], inflight[rid]+any)})
+				return
+			}
+			m.class("direct_count_after_failed_request_checked")
+		}
+	}
+}
+
 func (m *MonC04) OnEnd(w *World) []Violation {
 	b := BuildAccessBook(w)
 	var vs []Violation
